@@ -1,4 +1,5 @@
 import AcraModel.CrossClient.Reveal
+import AcraModel.Generated.IdentityCtx
 /-
 C02, part 2: the blind index (searchable encryption) under another identity.
 
@@ -11,8 +12,8 @@ caller's identity and then verify the hash under the caller's identity.
 namespace AcraModel.CrossClient
 open AcraModel AcraModel.Envelope
 
-/-- `funcNumber` of SHA-256 in `hmac/hash.go` (`255/2 + iota`) -/
-def hashFuncByte : UInt8 := 127
+/-- `funcNumber` of SHA-256 in `hmac/hash.go` (`255/2 + iota`), regenerated from the source -/
+def hashFuncByte : UInt8 := UInt8.ofNat Generated.IdentityCtx.hashFuncSha256
 /-- `sha256.Size` -/
 def hashSize : Nat := 32
 
